@@ -263,5 +263,7 @@ Record aentry := { a_two_d : bool; a_module : string; a_fn : string; a_arg : str
                    a_events : list aevent }.
 
 (* validation call sites and whether they forward the fitter's check_finite flag *)
+(* c_prevalidation: the validated array is a keyword array (method_kws[key]) that is then handed on to the
+   inner registered method, whose own validation (with the fitter's check_finite) sees it again *)
 Record centry := { c_two_d : bool; c_module : string; c_fn : string; c_callee : string;
-                   c_forwarded : bool }.
+                   c_forwarded : bool; c_prevalidation : bool }.
